@@ -109,8 +109,9 @@ META = {
         "E", "exploration", (160, 4000), (420, 5400),
         "Each run = a bundle: 20 op histories on a real EpochManager (append of valid and invalid configs with types 0-4, "
         "durations -1..30, thinning 0..36, interleaved with has_more()/next(), 0-2 configs handed to the constructor), 60 argument "
-        "tuples for stan_epochs (warm-up 1-5000, init/term/base 1-400, posterior 1-3000, thinnings), and every 8th run one "
-        "EngineBuilder.set_duration schedule sampled end-to-end with a probe kernel (builder chunk). Non-trivial = at least one op "
+        "tuples for stan_epochs (warm-up 1-5000, init/term/base 1-400, posterior 1-3000, thinnings), and every 4th run one schedule - "
+        "alternately from EngineBuilder.set_duration and a generated valid schedule given to set_epochs (common divisor 1-10, 60% with a "
+        "one-iteration epoch besides the initial one) - sampled end-to-end with a probe kernel (builder chunk). Non-trivial = at least one op "
         "or tuple; distinct = distinct bundle prefix.",
         "manager operations + stan_epochs evaluations",
         "distinct bundles (hash of the first histories / tuples); reach probes count each rejection reason",
@@ -151,7 +152,9 @@ META = {
         "child ~ Normal(g(parent), 1e-3) with g through cached / transient Calc nodes, weak vars, InputGroups fed by the parent's Var or by its "
         "value node, possibly chained; a quarter of the children are LogNormal variables transformed with the default bijector, whose new "
         "distribution node receives loc through builder-made InputGroups), a few "
-        "assignments before the call, a skip set naming vars / dist nodes / value proxies, a seed and an auto-update setting. "
+        "assignments before the call (followed by update()), in half of the runs 1-3 'pending' assignments made after the auto-update setting "
+        "is in place and right before simulate() - often to variables that are then skipped -, a skip set naming vars / dist nodes / value "
+        "proxies, a seed and an auto-update setting. "
         "The model is simulated three times from identical starts: with the planned auto-update setting, with the opposite one, "
         "and again with the planned one. Non-trivial = at least one variable drawn; distinct = distinct (program shape, skip set, setting).",
         "variables drawn (3 simulations per run)",
@@ -212,7 +215,8 @@ META = {
         "{Gamma, Exponential, Beta, LogNormal, HalfNormal, InverseGamma, Normal} x {Exp, Softplus, Sigmoid instances; Scale, "
         "Softplus(hinge_softness), Shift classes with constant or model-dependent arguments; the distribution's default}, applied via "
         "Var.transform(instance), Var.transform(Class, **args), Var.transform(None), auto_transform at build, and the deprecated "
-        "GraphBuilder.transform (instance / class / default); distribution parameters constant or other variables; then a value history "
+        "GraphBuilder.transform (instance / class / default); distribution parameters constant or other variables; initial values float32 "
+        "arrays or, for unreferenced variables under an Exp bijector, plain Python ints; then a value history "
         "of 4-20 ops assigning the new variable and its parents. Non-trivial = at least one density check; distinct = distinct tuple of "
         "(family, entry point, bijector, role, per_obs) over the transformed variables.",
         "operations applied (build-op post-conditions + value histories)",
@@ -287,8 +291,8 @@ META = {
         run_cap_s=900, shrink_tests=40, shrink_s=120,
     ),
     "C12": _m(
-        "E", "exploration", (24, 1000), (600, 5400),
-        "Each run = one Engine run of an HMCKernel or NUTSKernel (diagonal or dense mass matrix) over 2-3 position keys of different shapes "
+        "E", "exploration", (48, 1000), (600, 5400),
+        "Each run = one Engine run of an HMCKernel or NUTSKernel (diagonal or dense mass matrix) over 1-3 position keys (a single key mostly with one flat coordinate and a small scale) of different shapes "
         "(scalar, vector, matrix) whose scales differ by 10^2-10^6, listed in a random order (mostly non-alphabetical), optionally next to an "
         "RWKernel on a parameter of yet another scale, with 1-3 slow-adaptation epochs of 40-80 iterations (plus fast / burn-in / posterior "
         "epochs) and 1-3 chains; half of the runs are repeated with the keys listed in another order. Non-trivial = at least one tuned "
@@ -310,7 +314,7 @@ META = {
         "higher-acceptance twin from the same state at every step); every second run additionally one Engine run of RW / MH (tuning on or "
         "off) / IWLS / HMC / NUTS with store_kernel_states over a schedule of 2-5 epochs mixing fast / slow / burn-in / posterior, 1-3 chains; "
         "for the Metropolis-Hastings kernels half of the targets are undefined (NaN, fault F2) beyond a radius, so that some adaptation steps "
-        "are fed the acceptance probability 0 reported with error code 90. "
+        "are fed the acceptance probability 0 reported with error code 90; half of the engine runs configure their own da_gamma / da_kappa / da_t0. "
         "Non-trivial = at least one dual-averaging step checked; distinct = distinct run signature.",
         "dual-averaging steps (direct) + kernel transitions (engine)",
         "distinct (direct histories, kernel, schedule, constants) signatures",
@@ -390,7 +394,8 @@ META = {
     "C13": _m(
         "S", "exploration", (64, 1000), (900, 5400),
         "Each run = one Gibbs-kernel experiment. Even runs: a DistRegBuilder model (Normal response, loc/scale predictors, one np-smooth with a "
-        "penalty from {identity, ridge + differences, first differences (rank d-1), second differences (rank d-2)}, d = 2-6, hyperparameters "
+        "penalty from {identity, ridge + differences, first differences (rank d-1), second differences (rank d-2), partially unpenalised "
+        "coefficients, a random low-rank A'A}, d = 2-6, hyperparameters "
         "a, b, coefficient values and current tau2 from wide ranges, optionally a second np-smooth) and liesel's tau2_gibbs_kernel. Odd runs: a "
         "model with a FiniteDiscrete (2-6 outcomes, in 40% one of them with prior probability exactly 0) or Bernoulli prior on c, a Normal / Poisson / no downstream likelihood through eta = mu + "
         "slope c, and finite_discrete_gibbs_kernel with outcomes given or extracted. Each run (1) checks that the analytic full conditional is "
